@@ -92,9 +92,9 @@ class Adapter:
         return acts[rng.choice(len(acts), cap, replace=False)]
 
     def _acts(self, env: Any) -> np.ndarray:
-        k = id(env)
-        if getattr(self, "_acts_cache", (None, None))[0] != k:
-            self._acts_cache = (k, self.all_actions(env))
+        # keep a reference to the environment itself (ids are reused after garbage collection)
+        if getattr(self, "_acts_cache", (None, None))[0] is not env:
+            self._acts_cache = (env, self.all_actions(env))
         return self._acts_cache[1]
 
     def is_terminal_state(self, env: Any, s: Any, ts: Any) -> bool:
